@@ -1,11 +1,12 @@
 (* C14 entry point.  input = L [A path; tr; A lock; L labels; A second]
      path   0 transport.aclose  1 aclose_forcefully  2 TLS wrap  3 endpoint.aclose  4 AsyncTCPNetworkClient.aclose
             5 _ConnectedClientAPI.aclose  6 client task teardown  7 teardown after the handler called client.aclose()
-     tr     L [A 0; base] | L [A 1; L [A std; A unwrap_points; A handshake_points]; base]
+     tr     L [A 0; base] | L [A 1; L [A std; A unwrap_points; A handshake_points; (A mode)?]; base]   (mode: how the harness
+            obtains the unwrap suspension points: 1 = unread application data, the close_notify flush blocks)
      base   L [A 0; A leaf; A m; (A 1 = the real asyncio socket adapter, m = 0)?] | L [A 1; send; recv]
      lock   1: a sender is suspended holding the send lock (and the endpoint's guard)
      labels 0 complete | 1 OSError | 2 cancel | 3 timed scope expires
-     second 1: when the first close is over, close again (same path) with the remaining labels
+     second 1: when the first close is over, close again (same path) with the remaining labels; 2: and a third time
    output = L [A res; L [leaf0; leaf1]; A outer_closing; A api_closing; A used; second; L [fd0; fd1]]   (fd = descriptor released)
             second = L [] | L [A res2; A used2; L [leaf0; leaf1]; L [fd0; fd1]]                                                     *)
 From Coq Require Import ZArith List Bool Arith.
@@ -31,9 +32,13 @@ Fixpoint dec_base (fuel : nat) (x : sx) : option base :=
 Definition dec_tr (x : sx) : option tr :=
   match x with
   | L [A 0%Z; b] => option_map TPlain (dec_base 8 b)
-  | L [A 1%Z; L [A std; u; h]; b] =>
+  | L [A 1%Z; L (A std :: u :: h :: rest); b] =>
       match as_nat u, as_nat h, dec_base 8 b with
-      | Some u', Some h', Some b' => Some (TTls {| t_std := Z.eqb std 1; t_unwrap := u'; t_hs := h' |} b')
+      | Some u', Some h', Some b' =>
+          match rest with
+          | A 1%Z :: _ => Some (TTls {| t_std := Z.eqb std 1; t_unwrap := 0; t_hs := h'; t_unread := true; t_flush := u' |} b')
+          | _ => Some (TTls {| t_std := Z.eqb std 1; t_unwrap := u'; t_hs := h'; t_unread := false; t_flush := 0 |} b')
+          end
       | _, _, _ => None
       end
   | _ => None
@@ -65,6 +70,11 @@ Definition run (x : sx) : sx :=
         if Z.eqb second 1 then
           let '(r2, w2, _) := run_path p env0 w ls' in
           L [A (res_code r2); of_nat (w_used w2 - w_used w); flags w2; fds (tr_base (path_tr p)) w2]
+        else if Z.eqb second 2 then
+          let '(r2, w2, ls2) := run_path p env0 w ls' in
+          let '(r3, w3, _) := run_path p env0 w2 ls2 in
+          L [A (res_code r2); of_nat (w_used w2 - w_used w); flags w2; fds (tr_base (path_tr p)) w2;
+             A (res_code r3); of_nat (w_used w3 - w_used w2)]
         else L [] in
       L [A (res_code r); flags w; of_bool (tr_closing (path_tr p) w); of_bool (w_api_closing w); of_nat (w_used w); snd;
          fds (tr_base (path_tr p)) w]
